@@ -246,6 +246,25 @@ class SymArray(S.SymArrayBase):
     def __matmul__(s, o): return np.matmul(s, o)
     def __rmatmul__(s, o): return np.matmul(o, s)
 
+    def argmin(s, axis=None, **kw): return np.argmin(s, axis=axis, **kw)
+    def argsort(s, axis=-1, **kw): return np.argsort(s, axis=axis)
+    def take(s, indices, axis=None, **kw): return np.take(s, indices, axis=axis)
+    def repeat(s, repeats, axis=None): return np.repeat(s, repeats, axis=axis)
+
+    def sort(s, axis=-1, **kw):
+        """in place: goes through __setitem__, i.e. a FrameViolation when the storage is a caller-owned array"""
+        s[...] = np.sort(s, axis=axis)
+
+    def fill(s, value):
+        s[...] = value
+
+    def __getattr__(s, name):
+        # a public ndarray attribute that the value domain does not model: the engine cannot follow -> undecided,
+        # never an AttributeError that would look like a defect of the repository code
+        if not name.startswith('_') and hasattr(np.ndarray, name):
+            raise S.EngineGap('ndarray.%s is not modelled by the symbolic value domain' % name)
+        raise AttributeError(name)
+
     def tolist(s):
         return s.data.tolist()
 
